@@ -507,3 +507,80 @@ func LessUnwrap(p *core.Prog, r *core.Report) {
 		r.Ok("LESS-UNWRAP", key, p.Pos(partFn.Pos()), partFn.Name.Name+" unwraps Complemented on both operands")
 	}
 }
+
+// ---------------------------------------------------------------------------
+// LOC-WHOLE: a bare location in a locator is the whole string.
+
+// LocWhole decides LOC-WHOLE on gts.tryLocation: the parser it applies to the
+// locator string is anchored at both ends (pars.Exact, or a sequence that ends
+// in pars.End), as AsModifier's is. Otherwise a selector that merely starts
+// like a location - the feature keys 5'UTR and 3'UTR - is taken for the point
+// 5 or 3 and the selector is never tried.
+func LocWhole(p *core.Prog, r *core.Report) {
+	r.Rule("LOC-WHOLE", "in gts.tryLocation the parser whose Parse is applied to the locator string is built with pars.Exact (or ends in pars.End): a bare location must be the whole string, so that `5'UTR` falls through to the selector", 1)
+	info := p.Info(gts)
+	fd := p.FuncDecl(gts, "tryLocation")
+	key := "gts.tryLocation"
+	if fd == nil || fd.Body == nil {
+		r.Und("LOC-WHOLE", key+"|anchor", "-", "anchor-unresolved")
+		return
+	}
+	r.Fn(key)
+	asg := core.Assigns(info, fd.Body)
+	n := 0
+	for _, c := range core.Calls(fd.Body) {
+		fn := core.Callee(info, c)
+		if fn == nil || fn.Name() != "Parse" || fn.Pkg() == nil || !strings.HasSuffix(fn.Pkg().Path(), "go-pars/pars") {
+			continue
+		}
+		se, ok := ast.Unparen(c.Fun).(*ast.SelectorExpr)
+		if !ok {
+			continue
+		}
+		n++
+		anchored := false
+		var visit func(e ast.Expr, depth int)
+		visit = func(e ast.Expr, depth int) {
+			if depth > 4 || anchored {
+				return
+			}
+			e = ast.Unparen(e)
+			ast.Inspect(e, func(m ast.Node) bool {
+				switch x := m.(type) {
+				case *ast.CallExpr:
+					if core.IsCallTo(info, x, "github.com/go-pars/pars.Exact") {
+						anchored = true
+					}
+				case *ast.SelectorExpr:
+					if o, ok := info.Uses[x.Sel].(*types.Func); ok && o.Name() == "End" && o.Pkg() != nil && strings.HasSuffix(o.Pkg().Path(), "go-pars/pars") {
+						anchored = true
+					}
+				}
+				return !anchored
+			})
+			if id, ok := e.(*ast.Ident); ok && !anchored {
+				if o := core.ObjOf(info, id); o != nil {
+					// the LAST definition before the call decides (`parser = pars.Any(...)` after `var parser`)
+					var last ast.Expr
+					for _, d := range asg[o] {
+						if d.RHS != nil && d.Pos < c.Pos() {
+							last = d.RHS
+						}
+					}
+					if last != nil {
+						visit(last, depth+1)
+					}
+				}
+			}
+		}
+		visit(se.X, 0)
+		if anchored {
+			r.Ok("LOC-WHOLE", key, p.Pos(c.Pos()), "the location parser must consume the whole string")
+		} else {
+			r.Bad("LOC-WHOLE", key, p.Pos(c.Pos()), "tryLocation accepts a string that merely STARTS with a location: AsLocator(\"5'UTR\") is the point 5 and AsLocator(\"3..6foo\") the range 3..6; the selector for the feature key 5'UTR is never tried")
+		}
+	}
+	if n == 0 {
+		r.Und("LOC-WHOLE", key, p.Pos(fd.Pos()), "no Parse call found")
+	}
+}
